@@ -177,6 +177,57 @@ func runC10_2(c *Ctx) {
 			}
 		})
 	}
+	if !okChoice {
+		// the choice extracted into a helper: insert into helper(typeName), where every return of the helper is
+		// callHandlers on its `== CALL` edge and pushHandlers on the other one
+		Instrs(reg, func(i ssa.Instruction) {
+			mu, isMU := i.(*ssa.MapUpdate)
+			if !isMU {
+				return
+			}
+			call, isCall := mu.Map.(*ssa.Call)
+			if !isCall || call.Call.StaticCallee() == nil || call.Call.StaticCallee().Pkg != reg.Pkg {
+				return
+			}
+			h := call.Call.StaticCallee()
+			pi := -1
+			for k, a := range call.Call.Args {
+				if a == ssa.Value(reg.Params[1]) {
+					pi = k
+				}
+			}
+			if pi < 0 || len(h.Blocks) == 0 {
+				return
+			}
+			nRet, good := 0, 0
+			for _, ee := range EqEdges(h) {
+				if ee.X != ssa.Value(h.Params[pi]) {
+					continue
+				}
+				cst, isC := ee.Y.(*ssa.Const)
+				if !isC || cst.Value == nil || cst.Value.Kind() != constant.String || constant.StringVal(cst.Value) != pnCall {
+					continue
+				}
+				Instrs(h, func(j ssa.Instruction) {
+					ret, isRet := j.(*ssa.Return)
+					if !isRet {
+						return
+					}
+					nRet++
+					v := ReturnVals(ret)[0]
+					if isFieldLoad(v, srN, callIdx) && BlockDominatesInstr(ee.Eq, ret) {
+						good++
+					}
+					if isFieldLoad(v, srN, pushIdx) && BlockDominatesInstr(ee.Ne, ret) {
+						good++
+					}
+				})
+			}
+			if nRet == 2 && good == 2 {
+				okChoice = true
+			}
+		})
+	}
 	c.fact("phi-provenance")
 	c.Check(okChoice, "reg inserts into callHandlers iff routerTypeName == CALL", p.Pos(reg.Pos()), "table = callHandlers on the CALL edge, pushHandlers otherwise", "reg does not select the CALL table exactly for CALL registrations: a CALL handler becomes reachable by PUSH (or vice versa)")
 	// callers of reg: (type name constant, maker)
